@@ -550,6 +550,44 @@ example : (selectFmt rulesEn true false k12h).toOption = some "noon".toList ∧
 example : ∀ lang dt, dateGood DOpts.default false = true ∧ timeGood lang dt DOpts.default = true := by
   intro lang dt; cases lang <;> simp [dateGood, timeGood, DOpts.default, dateSubsetMissing]
 
+/-! ## C17.g  a realization depends only on the option state at that moment -/
+
+/-- the calls of a history that precede its `k`-th `realize` step -/
+def callsBefore : List Step → Nat → List Call
+  | [], _ => []
+  | .call c :: rest, k => c :: callsBefore rest k
+  | .realize :: _, 0 => []
+  | .realize :: rest, k + 1 => callsBefore rest k
+
+/-- **C17.g** in any history of option calls and realizations on one `DT` object, the `k`-th realization is the
+    realization of a fresh `DT` on which the calls made so far were applied: earlier realizations leave no trace -/
+def history_independent : Prop :=
+  ∀ (lang : Lang) (lemma : Option Val) (steps : List Step) (k : Nat) (o : Out),
+    (runHist (rulesOf lang) (DT.make lemma) steps).1[k]? = some o →
+    o = ((callsBefore steps k).foldl DT.call (DT.make lemma)).realize (rulesOf lang)
+
+theorem runHist_get (r : DateRules) (t : DT) (steps : List Step) (k : Nat) (o : Out)
+    (h : (runHist r t steps).1[k]? = some o) : o = ((callsBefore steps k).foldl DT.call t).realize r := by
+  induction steps generalizing t k with
+  | nil => simp [runHist] at h
+  | cons st rest ih =>
+    cases st with
+    | call c => simpa [callsBefore] using ih (t.call c) k h
+    | realize =>
+      cases k with
+      | zero => simp [runHist] at h; simp [callsBefore, h]
+      | succ k => simp only [runHist, List.getElem?_cons_succ] at h; simpa [callsBefore] using ih t k h
+
+theorem history_independent_holds : history_independent :=
+  fun lang lemma steps k o h => runHist_get (rulesOf lang) (DT.make lemma) steps k o h
+
+-- test: hide the year after a first realization, then realize again
+example : ((runHist rulesEn (DT.make (some (.dt (canon 11))))
+    [.realize, .call (.dOpt (some [(kYear, .bool false)])), .call (.nat (.bool false)), .realize]).1.map
+      (fun o => match o with | .text x => some x | _ => none))
+    = [some "on Thursday, July 23, 2015 at 11:25:45 a.m.".toList, some "Thursday 7/23 11:25:45 a.m.".toList] := by
+  decide +kernel
+
 /-! ## the Python source is the one the model mirrors (constants lifted by `ast` on every run, after the translator's
     normalisation: iterated / membership-tested list displays = tuple displays, local zero-argument helpers inlined) -/
 
@@ -596,6 +634,8 @@ def source_as_modelled : Prop :=
      "str(diffDays) in relativeDate".toList, "diffDays < 0".toList, "dOpts['nat']".toList,
      "timeFields == 'hour:minute:second'".toList, "m == 0 and s == 0".toList, "h == 0".toList, "h == 12".toList,
      "s == 0".toList, "timeFields == 'hour:minute'".toList, "m == 0".toList] ∧
+  pyRealDT = ["self.realization = self.dateFormat(self.date, self.getProp('dOpt'))".toList] ∧
+  pyFactoryDT = ["def DT(lemma=None, lang=None)".toList, "return terminal('DT', lemma, lang)".toList] ∧
   pyAllowedKeys = allowedKeys ∧
   pyDefaults = [(kYear, DOpts.default.year), (kMonth, DOpts.default.month), (kDate, DOpts.default.date),
                 (kDay, DOpts.default.day), (kHour, DOpts.default.hour), (kMinute, DOpts.default.minute),
